@@ -8,6 +8,7 @@ import (
 	"time"
 
 	"github.com/netflix/rend/common"
+	"github.com/netflix/rend/handlers"
 	"github.com/netflix/rend/handlers/inmem"
 )
 
@@ -110,7 +111,6 @@ func init() {
 		for round := 0; round < rounds; round++ {
 			inmem.VerifReset()
 			n := []int{2, 3, 8, 32, 5, 16}[round%6]
-			hnd, _ := inmem.New()
 			var wg sync.WaitGroup
 			errs := make(chan string, n)
 			for gi := 0; gi < n; gi++ {
@@ -122,6 +122,9 @@ func init() {
 							errs <- fmt.Sprintf("goroutine %d panicked: %v", gi, r)
 						}
 					}()
+					// every connection of the server obtains the backend through the constructor: so
+					// does every goroutine here (they must all end up on ONE map under ONE lock)
+					hnd, _ := inmem.New()
 					r := rand.New(rand.NewSource(seed*977 + int64(round)*131 + int64(gi)))
 					priv := map[string][]byte{}
 					for op := 0; op < 300; op++ {
@@ -206,6 +209,12 @@ func init() {
 			inmem.VerifReset()
 			hnd, err := inmem.New()
 			must(err)
+			// (one handler per connection, as the server obtains them)
+			var hnds [8]handlers.Handler
+			for i := range hnds {
+				hnds[i], err = inmem.New()
+				must(err)
+			}
 			rounds := 4000
 			if tier == "thorough" {
 				rounds = 40000
@@ -221,7 +230,7 @@ func init() {
 					go func(gi int) {
 						defer wg.Done()
 						start.Wait()
-						won[gi] = hnd.Add(common.SetRequest{Key: key, Data: []byte{byte('A' + gi)}, Flags: uint32(gi)}) == nil
+						won[gi] = hnds[gi].Add(common.SetRequest{Key: key, Data: []byte{byte('A' + gi)}, Flags: uint32(gi)}) == nil
 					}(gi)
 				}
 				start.Done()
